@@ -371,6 +371,14 @@ func (g *gen) lineS(isOption bool) *LineS {
 	for i := 0; i < nw; i++ {
 		text += " " + g.word()
 	}
+	if g.cfg.MarkupLines && g.tp.Chance(40, "markupchunk") {
+		// markup of every kind the line parser knows (model-free worlds only: the model does not parse markup)
+		text += " " + []string{
+			"[b]bold[/b]", "[wave a=1 s=\"q r\"]w[/wave] x", "[nomarkup][x] raw [/b][/nomarkup]", "[nomarkup]n[/] tail",
+			"[select value=b a=\"A\" b=\"B\" /]", "[plural value=2 one=\"cat\" other=\"% cats\" /]", "[ordinal value=3 one=\"%st\" two=\"%nd\" few=\"%rd\" other=\"%th\" /]",
+			"\\[esc\\]", "[a/] after", "[em]é日本[/em]", "[a][b]nested[/b][/a]", "[c trimwhitespace=false /] kept", "[x]open to the end",
+		}[g.tp.Int(0, 12, "markupkind")]
+	}
 	if g.outlier == "longline" && g.tp.Chance(30, "longline") {
 		// one line of several KB, its byte length near a power of two or well beyond: buffers have sizes
 		target := []int{4096, 8192, 16384, 65536}[g.tp.Pick([]int{5, 2, 1, 1}, "longlinebase")] + g.tp.Int(-8, 8, "longlinedelta")
